@@ -1,0 +1,63 @@
+//go:build verif
+
+package format
+
+// Contracts for the deductive verifier in /verif (govc). Comment-only file: adds no code.
+// (This package is verified from a byte-for-byte copy in a scratch module: tools/god cannot be loaded in place offline.)
+
+// FileNamingFormat: templates lacking a word or having them in the wrong order are rejected; mixed casing is
+// rejected; otherwise the template is cut into prefix / separator / suffix around the two words and handed to
+// doFormat with the two styles. `safety on`: every string slice below is proved to be in bounds, i.e. the
+// function never panics (the word positions are found on a length-preserving upper-casing of the template).
+//@ func FileNamingFormat
+//@   prop C20
+//@   safety on
+//@   nopanic
+//@   opaque getStyle, doFormat
+//@   let iGo = ret(strings.Index, 0, 1)
+//@   let iDe = ret(strings.Index, 0, 2)
+//@   let sf = arg(doFormat, 0)
+//@   ensures [lacking-or-misordered] iGo < 0 || iDe < 0 || iGo > iDe ==> result1 == ErrNamingFormat && result0 == "" && calls(doFormat) == 0 && calls(getStyle) == 0
+//@   ensures [searches-the-two-words] calls(strings.Index) == 2 && arg(strings.Index, 1, 1) == "GO" && arg(strings.Index, 1, 2) == "DESIGNER" && arg(strings.Index, 0, 1) == arg(strings.Index, 0, 2)
+//@   ensures [mixed-casing-go] calls(getStyle) >= 1 && ret(getStyle, 1, 1) != nil ==> result1 == ret(getStyle, 1, 1) && result0 == "" && calls(doFormat) == 0
+//@   ensures [mixed-casing-designer] calls(getStyle) == 2 && ret(getStyle, 1, 2) != nil ==> result1 == ret(getStyle, 1, 2) && result0 == "" && calls(doFormat) == 0
+//@   ensures [styles-of-the-two-words] calls(doFormat) == 1 ==> arg(getStyle, 0, 1) == strsub(format, iGo, iGo + 2) && arg(getStyle, 0, 2) == strsub(format, iDe, iDe + 8) && sf.goStyle == ret(getStyle, 0, 1) && sf.designerStyle == ret(getStyle, 0, 2)
+//@   ensures [prefix-separator-suffix] calls(doFormat) == 1 ==> sf.before == strsub(format, 0, iGo) && sf.through == strsub(format, iGo + 2, iDe) && sf.after == strsub(format, iDe + 8, len(format)) && arg(doFormat, 1) == content
+//@   ensures [result] calls(doFormat) == 1 ==> result0 == ret(doFormat, 0) && result1 == ret(doFormat, 1)
+//@   modifies elemsOf(byte)
+
+// asciiUpper keeps the byte length (so positions found in its result are positions of the template).
+//@ func asciiUpper
+//@   prop C20
+//@   safety on
+//@   nopanic
+//@   inline always
+//@   loop 1 invariant -1 <= rangeindex
+//@   ensures [length-preserved] len(result) == len(s)
+//@   modifies elemsOf(byte)
+
+// getStyle: lower / upper / title by comparison with the three renderings of the lower-cased word, error otherwise.
+//@ func getStyle
+//@   prop C20
+//@   let l = ret(strings.ToLower, 0, 1)
+//@   ensures [three-way] (flag == ret(strings.ToLower, 0, 2) ==> result0 == lower && result1 == nil)
+//@     | && (flag != ret(strings.ToLower, 0, 2) && flag == ret(strings.ToUpper) ==> result0 == upper && result1 == nil)
+//@     | && (flag != ret(strings.ToLower, 0, 2) && flag != ret(strings.ToUpper) && flag == ret(strings.Title) ==> result0 == title && result1 == nil)
+//@   ensures [mixed-rejected] flag != ret(strings.ToLower, 0, 2) && flag != ret(strings.ToUpper) && flag != ret(strings.Title) ==> result1 != nil && result0 == unknown
+//@   ensures [renderings-of-the-lowered-word] arg(strings.ToLower, 0, 1) == flag && arg(strings.ToLower, 0, 2) == l && (calls(strings.ToUpper) == 1 ==> arg(strings.ToUpper, 0) == l) && (calls(strings.Title) == 1 ==> arg(strings.Title, 0) == l)
+//@   modifies nothing
+
+//@ func transferTo
+//@   prop C20
+//@   ensures [by-style] (style == upper ==> result == ret(strings.ToUpper)) && (style == lower ==> result == ret(strings.ToLower)) && (style == title ==> result == ret(strings.Title)) && (style != upper && style != lower && style != title ==> result == v)
+//@   modifies nothing
+
+// doFormat: first word in the go-style, the others in the designer-style, joined by the separator, between prefix and suffix.
+//@ func doFormat
+//@   prop C20
+//@   opaque split, transferTo
+//@   loop 1 invariant -1 <= rangeindex && rangeindex <= len(fields)
+//@   loop 1 iteration-ensures [first-go-rest-designer] calls(transferTo) == 1 && arg(transferTo, 0) == at_head(fields[rangeindex + 1]) && arg(transferTo, 1) == ite(at_head(rangeindex + 1) == 0, format.goStyle, format.designerStyle)
+//@     | && len(join) == at_head(len(join)) + 1 && join[at_head(len(join))] == ret(transferTo)
+//@   ensures [split-error] ret(split, 1) != nil ==> result1 == ret(split, 1) && result0 == ""
+//@   ensures [assembled] ret(split, 1) == nil ==> result1 == nil && calls(strings.Join) == 1 && arg(strings.Join, 1) == format.through && result0 == format.before + ret(strings.Join) + format.after
